@@ -246,9 +246,9 @@ def walk(run, grp, r):
         gen_vals[nm] = v
         if pgl:
             gen_pgl[nm], bad = pgl_checks(run, S, v["so21"], o["det"] == [1, 0])
-            if bad:
+            if bad:                      # keep walking: the other maps do not depend on o_to_pgl
                 fail((nm,), bad[0], bad[1], S)
-                return
+                gen_pgl[nm] = None
     A0 = mat(obs[init]["g"])
     v0, bad = eval_state(run, grp, names, A0, obs[init], scale, ())
     if bad:
@@ -262,7 +262,7 @@ def walk(run, grp, r):
         p0, bad = pgl_checks(run, A0, v0["so21"], True)
         if bad:
             fail((), bad[0], bad[1], A0)
-            return
+            p0 = None
     # Killing form
     if "adsl" in names:
         run.case(key=("killing", grp), action="sln_killing_form")
@@ -300,7 +300,10 @@ def walk(run, grp, r):
                     v2, bad = eval_state(run, grp, names, A, o, scale, p2)
                     pg2 = None
                     if not bad and pgl:
-                        pg2, bad = pgl_checks(run, A, v2["so21"], o["det"] == [1, 0])
+                        pg2, badp = pgl_checks(run, A, v2["so21"], o["det"] == [1, 0])
+                        if badp:
+                            fail(p2, badp[0], badp[1], A)
+                            pg2 = None
                     if not bad and K is not None:
                         ad = v2["adsl"]
                         if not preserves(ad, K):
@@ -317,7 +320,7 @@ def walk(run, grp, r):
                     if not close(v2[nm], prod):
                         fail(p2, "homomorphism:" + nm, "phi(g s) = %r, phi(g) phi(s) = %r" % (brief(v2[nm]), brief(prod)), A)
                         break
-                if pgl and pg is not None and pg2 is not None:
+                if pgl and pg is not None and pg2 is not None and gen_pgl[act] is not None:
                     prod = pg @ gen_pgl[act]
                     if not close_pm(pg2, prod):
                         fail(p2, "o_to_pgl.homomorphism_up_to_sign",
@@ -329,8 +332,8 @@ def walk(run, grp, r):
     if r.emits:
         e = r.emits[len(r.emits) // 2]
         o = obs[skey(e["to"])]
-        run.sample(dict(kind="transition of the %s walk" % grp, **{"from": e["from"], "generator": e["act"], "to": e["to"],
-                        "spec_images_of_target": {k: o["img"][k] for k in list(o["img"])[:2]}}))
+        run.sample(dict(kind="transition of the %s walk" % grp, **{"from": brief(cm(e["from"])), "generator": e["act"], "to": brief(cm(e["to"])),
+                        "spec_images_of_target (times scale)": {k: brief(cm(o["img"][k])) for k in list(o["img"])[:3]}}))
     arrays(run, grp, names, [k for k in stack_keys], obs, state_vals, gens, gen_vals, cplx)
 
 
